@@ -25,6 +25,9 @@ func main() {
 		for _, id := range ids {
 			fmt.Println(id)
 		}
+	case "c20race":
+		// body of the race-detector build: the C20 bodies free-running in 16 goroutines
+		checks.C20Race(os.Args[2])
 	case "c16one":
 		// debugging aid: run one input through one C16 target without recovery (prints the stack)
 		checks.C16One(os.Args[2], os.Args[3])
